@@ -5,7 +5,7 @@ CONSTANTS
   PortCap = 4
   Dev = {}
   FifoOnly = TRUE
-  MaxK = 2
+  MaxK = 1
   MinB = 0
   MaxB = 2
   MinW = 0
